@@ -117,11 +117,21 @@ func (ps *pushSim) RoundTrip(req *http.Request) (*http.Response, error) {
 	rm := RecvMsg{AckID: p.ack, MsgID: p.msgID, Data: data, Attrs: env.Message.Attributes, Key: env.Message.OrderingKey, Attempt: p.attempt, PubTime: pt}
 	seqNo := S.commitSeq
 	*ps.pending = append(*ps.pending, seqOp{seqNo, func() *Violation {
+		if x := r.M.Msgs[rm.MsgID]; x != nil {
+			r.ev("   (POST #%d carried m%d, attempt %d)", p.id, x.Seq, rm.Attempt)
+		}
 		v := r.M.Pull(ps.sub, 1<<30, []RecvMsg{rm}, now.Add(-time.Millisecond), now)
 		if v != nil {
 			v.Oracle = "push:" + v.Oracle
+			return v
 		}
-		return v
+		if e := r.M.AckIDs[rm.AckID]; e != nil && ps.stalled && ps.sub.Cfg.fullDL() && e.State == stOut && e.Seen >= int(ps.sub.Cfg.MaxAttempts) {
+			// stalled-server runs: if the lease lapses while this last allowed attempt is
+			// still in flight, the next fetch dead-letters the delivery
+			r.M.deadLetterMaybe(e, now)
+			e.DLMaybe = false // (still outstanding for the ack / nack that follows)
+		}
+		return nil
 	}})
 	ps.script(p)
 	mm := -1
@@ -172,6 +182,9 @@ func (ps *pushSim) RoundTrip(req *http.Request) (*http.Response, error) {
 			// the endpoint was removed in this round: the pusher is being cancelled and may
 			// drop outcomes it has not committed yet; nothing is known about this delivery
 			if e.State == stOut {
+				if !success && ps.sub.Cfg.fullDL() && e.Seen >= int(ps.sub.Cfg.MaxAttempts) {
+					r.M.deadLetterMaybe(e, t1) // the nack may still have been processed
+				}
 				e.Fuzzy = true
 			}
 			return nil
@@ -189,6 +202,11 @@ func (ps *pushSim) RoundTrip(req *http.Request) (*http.Response, error) {
 				r.M.deadLetter(e, t1, t1.Add(time.Second))
 				r.M.probe("dl_via_nack")
 			} else if e.State == stOut {
+				if ps.stalled && ps.sub.Cfg.fullDL() && e.Seen+1 >= int(ps.sub.Cfg.MaxAttempts) {
+					// stalled-server runs: an overlapping second push may already have raised
+					// the attempt count, in which case this nack dead-letters the delivery
+					r.M.deadLetterMaybe(e, t1)
+				}
 				if !ps.stalled {
 					// (stalled-server runs: a lease-lapse duplicate may already be on its way)
 					e.LeaseLo = t1.Add(nominalBackoff(&ps.sub.Cfg, att))
